@@ -94,8 +94,33 @@ Proof. unfold evaluate_expression_as_i64. rm. Qed.
 Lemma RM_eval_string e : RM (evaluate_expression_as_string e).
 Proof. unfold evaluate_expression_as_string. rm. Qed.
 
+Ltac rm2 :=
+  repeat match goal with
+    | |- RM (evaluate_expression_as_i64 _) => apply RM_eval_i64
+    | |- RM (evaluate_expression_as_string _) => apply RM_eval_string
+    | |- RM current_target_pc => apply RM_current_target_pc
+    | |- RM (bind _ _) => apply RM_bind; [|intro]
+    | |- RM (ret _) => apply RM_ret
+    | |- RM (fail _) => apply RM_fail
+    | |- RM (err1 _ _ _ _) => apply RM_err1
+    | |- RM (abort _) => apply RM_abort
+    | |- RM get => apply RM_get
+    | |- RM (add_symbol _ _) => apply H_add_symbol
+    | |- RM (emit _ _) => apply H_emit
+    | |- RM (evaluate_expression _) => apply H_eval
+    | |- RM (export_one _ _ _) => apply H_export
+    | |- RM (import_as_scope _) => apply H_import_as
+    | |- RM (modify _) =>
+        apply RM_modify; intro; first [apply H_enter | apply H_leave | apply H_install | apply H_setpc | apply H_select
+                                       | apply H_bump | apply H_flag]
+    | |- RM (ignore_err _) => apply RM_ignore_err
+    | |- RM (recover _ _) => apply RM_recover
+    | |- RM (match ?x with _ => _ end) => destruct x
+    | |- RM (if ?b then _ else _) => destruct b
+    end.
+
 Lemma RM_scope_symbol n sp : RM (scope_symbol n sp).
-Proof. unfold scope_symbol. apply RM_bind; [apply RM_current_target_pc|intro]. rm. Qed.
+Proof. unfold scope_symbol. rm2. Qed.
 
 Lemma RM_with_scope {A} s b (f : M A) : RM f -> RM (with_scope s b f).
 Proof.
@@ -105,15 +130,7 @@ Proof.
 Qed.
 
 Lemma RM_define_segment sp l : RM (define_segment sp l).
-Proof.
-  unfold define_segment. destruct (validate_segment sp l); [|apply RM_fail].
-  apply RM_bind; [destruct (try_get_expression l t_name); [apply RM_bind; [apply RM_eval_string|intro]; rm|rm]|intro].
-  apply RM_bind; [destruct (try_get_expression l t_start); [apply RM_bind; [apply RM_recover; apply RM_eval_i64|intro]; rm|rm]|intro].
-  apply RM_bind; [destruct (try_get_expression l t_write); [apply RM_bind; [apply RM_eval_i64|intro]; rm|rm]|intro].
-  apply RM_bind; [destruct (try_get_expression l t_bank); [apply RM_eval_string|rm]|intro].
-  apply RM_bind; [destruct (try_get_expression l t_pc); [apply RM_bind; [apply RM_eval_i64|intro]; rm|rm]|intro].
-  rm.
-Qed.
+Proof. unfold define_segment. destruct (validate_segment sp l); [|apply RM_fail]. rm2. Qed.
 
 Lemma RM_loop_iterations body : (forall i, RM (body i)) -> forall fuel i n, RM (loop_iterations fuel i n body).
 Proof.
@@ -188,7 +205,7 @@ Proof.
   - (* TPc *) apply RM_bind; [apply RM_eval_i64|intros v]. rm.
   - (* TSegment *)
     apply RM_bind; [apply RM_eval_string|intros s]. destruct s; [|apply RM_ret].
-    destruct (existsb (N.eqb 46) t); [apply RM_abort|]. apply RM_bind; [apply RM_get|intro c].
+    destruct (existsb (N.eqb 46) t); [apply RM_err1|]. apply RM_bind; [apply RM_get|intro c].
     destruct (seg_get (segments c) t); [|apply RM_err1]. destruct b.
     + apply RM_bind; [rm|intro]. apply RM_bind; [apply Hts|intro]. rm.
     + rm.
